@@ -4,39 +4,40 @@ C09 — remove_useless_symbols, remove_epsilon, eliminate_unit_productions keep 
 -/
 import Pfl.Proofs.CFGBase
 import Pfl.Props.C12_Classes
+import Pfl.Proofs.CFGClean
 namespace Pfl
 namespace CFG
 
 theorem mk'_prods (vars ters : List String) (start : Option String) (prods : List Prod) :
     (mk' vars ters start prods).prods = prods ∧ (mk' vars ters start prods).start = start := by
-  sorry
+  exact ⟨rfl, rfl⟩
 
 theorem mk'_wf (vars ters : List String) (start : Option String) (prods : List Prod) :
     (mk' vars ters start prods).WF := by
-  sorry
+  exact Clean.mk'_wf vars ters start prods
 
 theorem removeUseless_lang (G : CFG) (hG : G.WF) (w : List String) :
     G.removeUseless.Lang w ↔ G.Lang w := by
-  sorry
+  exact Clean.removeUseless_lang G hG w
 
 /-- in the result every symbol of every production is generating and reachable -/
 theorem removeUseless_useful (G : CFG) (hG : G.WF) :
     ∀ p ∈ G.removeUseless.prods, ∀ s ∈ Sym.var p.1 :: p.2,
       s ∈ G.removeUseless.generating ∧ s ∈ G.removeUseless.reachable := by
-  sorry
+  exact Clean.removeUseless_useful G hG
 
 theorem removeEpsilon_lang (G : CFG) (w : List String) :
     G.removeEpsilon.Lang w ↔ G.Lang w ∧ w ≠ [] := by
-  sorry
+  exact Clean.removeEpsilon_lang G w
 
 theorem removeEpsilon_noEps (G : CFG) : ∀ p ∈ G.removeEpsilon.prods, p.2 ≠ [] := by
-  sorry
+  exact Clean.removeEpsilon_noEps G
 
 theorem elimUnit_lang (G : CFG) (hG : G.WF) (w : List String) : G.elimUnit.Lang w ↔ G.Lang w := by
-  sorry
+  exact Clean.elimUnit_lang G hG w
 
 theorem elimUnit_noUnit (G : CFG) : ∀ p ∈ G.elimUnit.prods, isUnit p = false := by
-  sorry
+  exact Clean.elimUnit_noUnit G
 
 end CFG
 end Pfl
